@@ -240,7 +240,7 @@ func RunCheck(opt Options) int {
 	var modOrder []string
 	for _, key := range cs.order {
 		fc := cs.byName[key]
-		if fc.Trusted || !strings.HasPrefix(fc.File, opt.Repo) {
+		if fc.Trusted || !strings.HasPrefix(fc.File, opt.Repo) || strings.Contains(key, "::") || strings.HasPrefix(fc.Header, "interface ") {
 			continue
 		}
 		if !contractMentions(fc, opt.Prop) {
@@ -718,6 +718,7 @@ func (v *Verifier) VerifyFunction(fn *ssa.Function, fc *FuncContract) (err error
 	}
 	st.frame = nil
 	st.ghost["$gocount"] = scalar(types.Typ[types.Int], Int(0))
+	st.ghost["$didlock"] = scalar(types.Typ[types.Bool], False)
 	st.assume(Not(Select(st.heapArr("chan#running", runningSort), Int(0))))
 	// preconditions
 	pre := &Eval{v: v, st: st, old: st, env: map[string]*Value{}, mode: evalPre, fn: fn, fc: fc, pkg: fnPkg(fn)}
